@@ -598,7 +598,7 @@ package spec
 //@   ensures  result == (err != nil && !r.options.ContinueOnError)
 
 //@ func (*schemaLoader).isCircular
-//@   property C03, C04
+//@   property C03, C04, C08
 //@   requires wfResolver(r) && ref != nil && urlOK(basePath)
 //@   assigns  map(r.context.circulars)
 //@   ensures  exact @@ foundCycle == (old(has(r.context.circulars, normURI(refString(ref), basePath))) || containsStr(parentRefs, normURI(refString(ref), basePath)))
@@ -739,7 +739,7 @@ package spec
 
 //@ func (*schemaLoader).transitiveResolver
 //@   inline   normalizeRef
-//@   property C02, C04
+//@   property C02, C04, C12
 //@   requires wfResolver(r) && canonBase(basePath)
 //@   assumes  [C04] documents-have-paths @@ !refLocalV(ref) ==> hasPrefix(urlPath(normURI(refStringV(ref), basePath)), "/")
 //@   uses     verifLemmaNormIdem.norm-canonical(refStringV(ref), basePath)
@@ -749,7 +749,7 @@ package spec
 //@   assigns  r.options.RelativeBase
 //@   ensures  same-run @@ sameRun(result, r)
 //@   ensures  [C02] local-keeps @@ old(refLocal(ref)) ==> result == r
-//@   ensures  [C02] keeps-only-same-document @@ result == r && !old(refLocal(ref)) ==> sameDoc(normURI(old(refString(ref)), basePath), basePath)
+//@   ensures  [C02,C12] keeps-only-same-document @@ result == r && !old(refLocal(ref)) ==> sameDoc(normURI(old(refString(ref)), basePath), basePath)
 //@   ensures  [C02] switches-to-target @@ result != r ==> freshObj(result) && result.options == r.options
 //@               && result.options.RelativeBase == urlStr(urlScheme(normURI(old(refString(ref)), basePath)), normHost(urlScheme(normURI(old(refString(ref)), basePath)), urlHost(normURI(old(refString(ref)), basePath))),
 //@                     dedupSlashes(urlPath(normURI(old(refString(ref)), basePath))), urlQuery(normURI(old(refString(ref)), basePath)), "")
@@ -1279,7 +1279,7 @@ package spec
 //@   requires nfKind(jv(data), "InfoProps", "info") && nfExtensions(jv(data))
 //@   requires requiredPresent(jv(data), "info")
 //@   requires forall k string :: oCnt(jv(data), k) > 0 ==> knownKey("InfoProps", k) || isExtKey(k)
-//@   ensures  [C01] lossless @@ result != nil ==> sameObject(jv(result), jv(data))
+//@   ensures  [C01,C19] lossless @@ result != nil ==> sameObject(jv(result), jv(data))
 //@   excluding lossless @@ nfKindAll(jv(data), "InfoProps", "info")
 //@   ensures  [C19] required-kept @@ result != nil ==> requiredPresent(jv(result), "info")
 //@   excluding required-kept @@ nfKindAll(jv(data), "InfoProps", "info")
@@ -1291,7 +1291,7 @@ package spec
 //@   requires requiredPresent(jv(data), "contact")
 //@   requires forall k string :: oCnt(jv(data), k) > 0 ==> knownKey("ContactInfoProps", k) || isExtKey(k)
 //@   requires forall k string :: (knownKey("ContactInfoProps", k)) ==> !isExtKey(k)
-//@   ensures  [C01] lossless @@ result != nil ==> sameObject(jv(result), jv(data))
+//@   ensures  [C01,C19] lossless @@ result != nil ==> sameObject(jv(result), jv(data))
 //@   excluding lossless @@ nfKindAll(jv(data), "ContactInfoProps", "contact")
 //@   ensures  [C19] required-kept @@ result != nil ==> requiredPresent(jv(result), "contact")
 //@   excluding required-kept @@ nfKindAll(jv(data), "ContactInfoProps", "contact")
@@ -1303,7 +1303,7 @@ package spec
 //@   requires requiredPresent(jv(data), "license")
 //@   requires forall k string :: oCnt(jv(data), k) > 0 ==> knownKey("LicenseProps", k) || isExtKey(k)
 //@   requires forall k string :: (knownKey("LicenseProps", k)) ==> !isExtKey(k)
-//@   ensures  [C01] lossless @@ result != nil ==> sameObject(jv(result), jv(data))
+//@   ensures  [C01,C19] lossless @@ result != nil ==> sameObject(jv(result), jv(data))
 //@   excluding lossless @@ nfKindAll(jv(data), "LicenseProps", "license")
 //@   ensures  [C19] required-kept @@ result != nil ==> requiredPresent(jv(result), "license")
 //@   excluding required-kept @@ nfKindAll(jv(data), "LicenseProps", "license")
@@ -1315,7 +1315,7 @@ package spec
 //@   requires requiredPresent(jv(data), "tag")
 //@   requires forall k string :: oCnt(jv(data), k) > 0 ==> knownKey("TagProps", k) || isExtKey(k)
 //@   requires forall k string :: (knownKey("TagProps", k)) ==> !isExtKey(k)
-//@   ensures  [C01] lossless @@ result != nil ==> sameObject(jv(result), jv(data))
+//@   ensures  [C01,C19] lossless @@ result != nil ==> sameObject(jv(result), jv(data))
 //@   excluding lossless @@ nfKindAll(jv(data), "TagProps", "tag")
 //@   ensures  [C19] required-kept @@ result != nil ==> requiredPresent(jv(result), "tag")
 //@   excluding required-kept @@ nfKindAll(jv(data), "TagProps", "tag")
@@ -1327,7 +1327,7 @@ package spec
 //@   requires requiredPresent(jv(data), "header")
 //@   requires forall k string :: oCnt(jv(data), k) > 0 ==> knownKey("CommonValidations", k) || knownKey("SimpleSchema", k) || knownKey("HeaderProps", k) || isExtKey(k)
 //@   requires forall k string :: (knownKey("CommonValidations", k) || knownKey("SimpleSchema", k) || knownKey("HeaderProps", k)) ==> !isExtKey(k)
-//@   ensures  [C01] lossless @@ result != nil ==> sameObject(jv(result), jv(data))
+//@   ensures  [C01,C19] lossless @@ result != nil ==> sameObject(jv(result), jv(data))
 //@   excluding lossless @@ nfKindAll(jv(data), "CommonValidations", "header") && nfKindAll(jv(data), "SimpleSchema", "header") && nfKindAll(jv(data), "HeaderProps", "header")
 //@   ensures  [C19] required-kept @@ result != nil ==> requiredPresent(jv(result), "header")
 //@   excluding required-kept @@ nfKindAll(jv(data), "CommonValidations", "header") && nfKindAll(jv(data), "SimpleSchema", "header") && nfKindAll(jv(data), "HeaderProps", "header")
@@ -1394,7 +1394,7 @@ package spec
 //@   requires requiredPresent(jv(data), "primitivesItems")
 //@   requires forall k string :: oCnt(jv(data), k) > 0 ==> knownKey("CommonValidations", k) || knownKey("SimpleSchema", k) || isExtKey(k) || k == "$ref"
 //@   requires (forall k string :: (knownKey("CommonValidations", k) || knownKey("SimpleSchema", k)) ==> !isExtKey(k) && k != "$ref") && !isExtKey("$ref")
-//@   ensures  [C01] lossless @@ result != nil ==> sameObject(jv(result), jv(data))
+//@   ensures  [C01,C19] lossless @@ result != nil ==> sameObject(jv(result), jv(data))
 //@   excluding lossless @@ nfKindAll(jv(data), "CommonValidations", "primitivesItems") && nfKindAll(jv(data), "SimpleSchema", "primitivesItems")
 //@   ensures  [C19] required-kept @@ result != nil ==> requiredPresent(jv(result), "primitivesItems")
 //@   excluding required-kept @@ nfKindAll(jv(data), "CommonValidations", "primitivesItems") && nfKindAll(jv(data), "SimpleSchema", "primitivesItems")
@@ -1406,7 +1406,7 @@ package spec
 //@   requires requiredPresent(jv(data), "nonBodyParameter")
 //@   requires forall k string :: oCnt(jv(data), k) > 0 ==> knownKey("CommonValidations", k) || knownKey("SimpleSchema", k) || knownKey("ParamProps", k) || isExtKey(k) || k == "$ref"
 //@   requires (forall k string :: (knownKey("CommonValidations", k) || knownKey("SimpleSchema", k) || knownKey("ParamProps", k)) ==> !isExtKey(k) && k != "$ref") && !isExtKey("$ref")
-//@   ensures  [C01] lossless @@ result != nil ==> sameObject(jv(result), jv(data))
+//@   ensures  [C01,C19] lossless @@ result != nil ==> sameObject(jv(result), jv(data))
 //@   excluding lossless @@ nfKindAll(jv(data), "CommonValidations", "nonBodyParameter") && nfKindAll(jv(data), "SimpleSchema", "nonBodyParameter") && nfKindAll(jv(data), "ParamProps", "nonBodyParameter")
 //@   ensures  [C19] required-kept @@ result != nil ==> requiredPresent(jv(result), "nonBodyParameter")
 //@   excluding required-kept @@ nfKindAll(jv(data), "CommonValidations", "nonBodyParameter") && nfKindAll(jv(data), "SimpleSchema", "nonBodyParameter") && nfKindAll(jv(data), "ParamProps", "nonBodyParameter")
@@ -1418,7 +1418,7 @@ package spec
 //@   requires (oCnt(jv(data), "$ref") == 0 && requiredPresent(jv(data), "response")) || (oCnt(jv(data), "$ref") > 0 && (forall k string :: oCnt(jv(data), k) > 0 ==> k == "$ref"))
 //@   requires forall k string :: oCnt(jv(data), k) > 0 ==> knownKey("ResponseProps", k) || isExtKey(k) || k == "$ref"
 //@   requires (forall k string :: (knownKey("ResponseProps", k)) ==> !isExtKey(k) && k != "$ref") && !isExtKey("$ref")
-//@   ensures  [C01] lossless @@ result != nil ==> sameObject(jv(result), jv(data))
+//@   ensures  [C01,C19] lossless @@ result != nil ==> sameObject(jv(result), jv(data))
 //@   ensures  [C19] required-kept @@ result != nil && oCnt(jv(data), "$ref") == 0 ==> requiredPresent(jv(result), "response")
 
 //@ func verifLemmaPathItemRoundTrip
@@ -1428,7 +1428,7 @@ package spec
 //@   requires requiredPresent(jv(data), "pathItem")
 //@   requires forall k string :: oCnt(jv(data), k) > 0 ==> knownKey("PathItemProps", k) || isExtKey(k) || k == "$ref"
 //@   requires (forall k string :: (knownKey("PathItemProps", k)) ==> !isExtKey(k) && k != "$ref") && !isExtKey("$ref")
-//@   ensures  [C01] lossless @@ result != nil ==> sameObject(jv(result), jv(data))
+//@   ensures  [C01,C19] lossless @@ result != nil ==> sameObject(jv(result), jv(data))
 //@   excluding lossless @@ nfKindAll(jv(data), "PathItemProps", "pathItem")
 //@   ensures  [C19] required-kept @@ result != nil ==> requiredPresent(jv(result), "pathItem")
 //@   excluding required-kept @@ nfKindAll(jv(data), "PathItemProps", "pathItem")
@@ -1477,7 +1477,7 @@ package spec
 //@   requires isObj(jv(data)) && noDuplicates(jv(data)) && nfExtensions(jv(data))
 //@   requires forall k string :: oCnt(jv(data), k) > 0 ==> isExtKey(k) || isPathKey(k)
 //@   requires forall k string :: oCnt(jv(data), k) > 0 && isPathKey(k) ==> decOKOf("PathItem", oVal(jv(data), k)) && encOf(decOf("PathItem", oVal(jv(data), k))) == oVal(jv(data), k)
-//@   ensures  [C01] lossless @@ result != nil ==> sameObject(jv(result), jv(data))
+//@   ensures  [C01,C19] lossless @@ result != nil ==> sameObject(jv(result), jv(data))
 
 // ---- Responses: "default" and decimal status codes flattened beside the extensions
 //@ specfn itoa(int) string
@@ -1566,13 +1566,13 @@ package spec
 //@   requires forall k string :: oCnt(jv(data), k) > 0 ==> k == "default" || isExtKey(k) || atoiOK(k)
 //@   requires forall k string :: oCnt(jv(data), k) > 0 && isExtKey(k) ==> hasPrefix(k, "x-")
 //@   requires forall k string :: oCnt(jv(data), k) > 0 && !isExtKey(k) ==> decOKOf("Response", oVal(jv(data), k)) && encOf(decOf("Response", oVal(jv(data), k))) == oVal(jv(data), k)
-//@   ensures  [C01] lossless-default @@ result != nil ==> oCnt(jv(result), "default") == oCnt(jv(data), "default") && (oCnt(jv(data), "default") > 0 ==> oVal(jv(result), "default") == oVal(jv(data), "default"))
-//@   ensures  [C01] lossless-extensions @@ result != nil ==> (forall k string :: oCnt(jv(data), k) > 0 && isExtKey(k) ==> oCnt(jv(result), k) == 1 && oVal(jv(result), k) == oVal(jv(data), k))
+//@   ensures  [C01,C19] lossless-default @@ result != nil ==> oCnt(jv(result), "default") == oCnt(jv(data), "default") && (oCnt(jv(data), "default") > 0 ==> oVal(jv(result), "default") == oVal(jv(data), "default"))
+//@   ensures  [C01,C19] lossless-extensions @@ result != nil ==> (forall k string :: oCnt(jv(data), k) > 0 && isExtKey(k) ==> oCnt(jv(result), k) == 1 && oVal(jv(result), k) == oVal(jv(data), k))
 //@   ensures  [C01,C19] status-codes-kept @@ result != nil ==> (forall k string :: oCnt(jv(data), k) > 0 && k != "default" && !isExtKey(k) ==> oCnt(jv(result), k) == 1 && oVal(jv(result), k) == oVal(jv(data), k))
 //@   excluding status-codes-kept @@ canonicalCodes(jv(data))
 //@   ensures  [C01] nothing-invented @@ result != nil ==> (forall k string :: oCnt(jv(result), k) > 0 ==> oCnt(jv(data), k) > 0)
 //@   excluding nothing-invented @@ canonicalCodes(jv(data))
-//@   ensures  [C01] lossless @@ result != nil ==> sameObject(jv(result), jv(data))
+//@   ensures  [C01,C19] lossless @@ result != nil ==> sameObject(jv(result), jv(data))
 //@   excluding lossless @@ canonicalCodes(jv(data))
 
 // ---- SecurityScheme: one lemma, one case per flavour of the meta-schema (the required list differs)
@@ -1599,7 +1599,7 @@ package spec
 //@   requires isObj(jv(data)) && noDuplicates(jv(data)) && nfExtensions(jv(data))
 //@   requires nfKind(jv(data), "OperationProps", "operation") && requiredPresent(jv(data), "operation")
 //@   requires (forall k string :: oCnt(jv(data), k) > 0 ==> knownKey("OperationProps", k) || isExtKey(k)) && (forall k string :: knownKey("OperationProps", k) ==> !isExtKey(k))
-//@   ensures  [C01] lossless @@ result != nil ==> sameObject(jv(result), jv(data))
+//@   ensures  [C01,C19] lossless @@ result != nil ==> sameObject(jv(result), jv(data))
 //@   ensures  [C19] required-kept @@ result != nil ==> requiredPresent(jv(result), "operation")
 
 // ---- Schema
@@ -1678,7 +1678,7 @@ package spec
 //@   ensures  [C01] ref-kept @@ result != nil ==> oCnt(jv(result), "$ref") == oCnt(jv(data), "$ref") && (oCnt(jv(data), "$ref") > 0 ==> oVal(jv(result), "$ref") == oVal(jv(data), "$ref"))
 //@   ensures  [C01] schema-url-kept @@ result != nil ==> oCnt(jv(result), "$schema") == oCnt(jv(data), "$schema") && (oCnt(jv(data), "$schema") > 0 ==> oVal(jv(result), "$schema") == oVal(jv(data), "$schema"))
 //@   ensures  [C01] other-members-kept @@ result != nil ==> (forall k string :: !schemaKey(k) && k != "$ref" && k != "$schema" ==> oCnt(jv(result), k) == oCnt(jv(data), k) && (oCnt(jv(data), k) > 0 ==> oVal(jv(result), k) == oVal(jv(data), k)))
-//@   ensures  [C01] lossless @@ result != nil ==> sameObject(jv(result), jv(data))
+//@   ensures  [C01,C19] lossless @@ result != nil ==> sameObject(jv(result), jv(data))
 
 // ---- union types: first-byte dispatch (C07)
 //@ specfn jWF([]byte) bool
@@ -1786,3 +1786,40 @@ package spec
 //@   ensures  [C15] default-member @@ result2 != nil && oCnt(jv(result2), token) > 0 && token == "default" ==> result1 == nil && holds(result0, "*Response") && encOf(*asPtr(result0, "*Response")) == oVal(jv(result2), token)
 //@   ensures  [C15] status-code-member @@ result2 != nil && oCnt(jv(result2), token) > 0 && !isExtKey(token) && token != "default" ==> result1 == nil && holds(result0, "Response") && encOf(asValue(result0, "Response")) == oVal(jv(result2), token)
 //@   ensures  [C15,C05] absent-member-is-error @@ result2 != nil && oCnt(jv(result2), token) == 0 && token != "default" && (atoiOK(token) ==> itoa(atoi(token)) == token) ==> result1 != nil
+
+// ---- gob transport of a reference (C13, C14): the custom codec ships the JSON bytes through gob
+// bytes.Buffer and encoding/gob, for the one value this package sends through them by hand: a []byte.
+//@ ghost gobVal smt:(Array Int JV)
+//@ specfn gobOf([]byte) smt:JV
+//@ specfn gobWF([]byte) bool
+//@ specfn encSink(ptr) ptr
+//@ specfn decSrc(ptr) ptr
+//@ ext encoding/gob.NewEncoder
+//@   params w
+//@   assigns nothing
+//@   ensures freshObj(result) && encSink(result) == payload(w)
+//@ ext (*encoding/gob.Encoder).Encode
+//@   params e, v
+//@   assigns ghost(gobVal)
+//@   ensures holds(v, "[]byte") ==> result == nil && gobVal == upd(old(gobVal), encSink(e), jv(asValue(v, "[]byte")))
+//@ ext (*bytes.Buffer).Bytes
+//@   params b
+//@   assigns nothing
+//@   ensures result != nil && gobOf(result) == gobVal[b] && gobWF(result)
+//@ ext bytes.NewBuffer
+//@   params buf
+//@   assigns ghost(gobVal)
+//@   ensures freshObj(result) && gobVal == upd(old(gobVal), result, gobOf(buf))
+//@ ext encoding/gob.NewDecoder
+//@   params r
+//@   assigns nothing
+//@   ensures freshObj(result) && decSrc(result) == payload(r)
+//@ ext (*encoding/gob.Decoder).Decode
+//@   params d, v
+//@   assigns region(payload(v))
+//@   ensures holds(v, "*[]byte") && result == nil ==> jv(*asPtr(v, "*[]byte")) == gobVal[decSrc(d)] && *asPtr(v, "*[]byte") != nil
+
+//@ func verifLemmaRefGob
+//@   property C13, C14
+//@   requires urlOK(s)
+//@   ensures  [C13,C14] gob-round-trip @@ result2 == nil ==> sameRef(result0, result1)
